@@ -151,7 +151,7 @@ pub fn run(rep: &Report) -> i32 {
     let seen: Mutex<HashSet<u64>> = Mutex::new(HashSet::new());
     let fresh = |t: &str| seen.lock().unwrap().insert(crate::report::fxhash(t.as_bytes()));
     let fresh = &fresh;
-    let layouts = [Layout::Pretty, Layout::PrettyCrlf, Layout::Tabs, Layout::LineComments, Layout::TokenPerLine, Layout::TokenPerLineCrlf, Layout::OneLine, Layout::Comments, Layout::NonAsciiComments];
+    let layouts = [Layout::Pretty, Layout::PrettyCrlf, Layout::Tabs, Layout::LineComments, Layout::TokenPerLine, Layout::TokenPerLineCrlf, Layout::OneLine, Layout::Comments, Layout::NonAsciiComments, Layout::CrOnly];
     rep.set("bounds", json!({"layouts": layouts.iter().map(|l| format!("{l:?}")).collect::<Vec<_>>(), "variants": ["as rendered", "without the trailing line terminator", "with a leading non-ASCII comment line"], "sources": ["all M_ast near misses of the C04 bases", "single-token edits of the kitchen-sink programs and the shipped examples, LF and CRLF"]}));
     // (1) near misses in every line structure
     let bases = c04::base_programs(quick);
